@@ -1,4 +1,7 @@
 """C17 - constructing a fraction from floating point terminates with a faithful result (engine E-fraction, offline judge)."""
+import json
+import os
+import sys
 from fractions import Fraction as Fr
 
 from .. import core
@@ -18,14 +21,31 @@ def easy(x, maxT, M):
     return P <= maxT // 2 and Q <= maxT // 2 and max(P, 1) * Q <= 2 ** (M - 1)
 
 
+BASE_PATH = os.path.join(core.VERIF, "matrix", "c17_baseline.json")
+RECORD = None
+_baseline = False
+
+
+def load_baseline():
+    global _baseline
+    if _baseline is False:
+        _baseline = None
+        if os.path.exists(BASE_PATH):
+            with open(BASE_PATH) as f:
+                d = json.load(f)
+            _baseline = {k: set(v) for k, v in d["deviating_inputs"].items()}
+    return _baseline
+
+
 def judge(res, job):
+    baseline = load_baseline()
     kd = {r["id"]: r for r in job.records if r.get("t") == "kd"}
     tall = {}
     pcs = set()
     rows = []
     for line in job.raw:
         p = line.split()
-        if len(p) != 9 or p[0] != "G":
+        if len(p) != 9 or p[0] not in ("G", "Gr"):
             continue
         rows.append(p)
         if p[3] in ("UB_TRAP", "SIGNAL"):
@@ -81,6 +101,15 @@ def judge(res, job):
             if dev is None and is_easy and ticks > 200:
                 dev = "too_many_iterations(%d)" % ticks
         cls_name = ("easy:" if is_easy else "hard:") + dev if dev else None
+        if dev and not is_easy and p[0] == "G" and job.config == "g-san" and baseline is not None:
+            # deterministic hard input: the set of such inputs that deviate on the pinned tree is recorded (matrix/c17_baseline.json);
+            # a deterministic input that held there and deviates now is a regression, never attributed to the known finding
+            if p[2] not in baseline.get(k["k"], ()):
+                cls_name = "hard_regression:" + dev
+            else:
+                t["classes"]["hard:recorded_baseline_deviation"] = t["classes"].get("hard:recorded_baseline_deviation", 0) + 1
+        if RECORD is not None and dev and not is_easy and p[0] == "G":
+            RECORD.setdefault(k["k"], set()).add(p[2])
         t["classes"][("easy" if is_easy else "hard") + (":deviates" if dev else ":ok")] = t["classes"].get(("easy" if is_easy else "hard") + (":deviates" if dev else ":ok"), 0) + 1
         if cls_name:
             # collapse hard-class value deviations into one class each for the known-finding matcher
@@ -127,3 +156,14 @@ def run(tier, seed, only=None):
     if not only and res.classes.get("easy:ok", 0) < 1000:
         res.inconclusive.append("too few easy inputs judged")
     return res.finish(RULE, assumptions=["offline checker: python Fractions; floats printed exactly with %La", "hard inputs are run only in CNL_DEBUG configurations where the outcome is a deterministic assertion rather than undefined behaviour"])
+
+
+if __name__ == "__main__":
+    # record the deterministic hard inputs that deviate on the current (pinned + fixes) tree
+    RECORD = {}
+    _baseline = None
+    run("thorough", 1)
+    with open(BASE_PATH, "w") as f:
+        json.dump({"recorded_against_tree": core.tree_hash()[:16], "what": "deterministic (seed-independent) hard-class inputs of each C17 kernel whose construction deviates from the statement on the tree the finding KF-C17-01 was recorded against; "
+                   "any other deterministic input must hold", "deviating_inputs": {k: sorted(v) for k, v in RECORD.items()}}, f)
+    print("recorded", {k: len(v) for k, v in RECORD.items()})
